@@ -12,7 +12,7 @@ import (
 	rt "github.com/Azbesciak/RealDecisionMaker/lib/zz_verifrt"
 )
 
-//verif:bounds C19 HC19_anchoring: Anchoring.Apply with the majority listener: A=2 (quick) / A<=3 (thorough) known alternatives (last optionally not considered), K<=2 criteria (gain/cost), 1..2 anchoring alternatives (considered or not; quick tier: two only with K=1) with symbolic positive coefficients, ideal / nadir reference point, linear gain and loss functions with symbolic slope and intercept or the exponential function (e^x uninterpreted) or identically zero functions, inline applier (applyOnNotConsidered on/off) and new-criterion applier, bounding off / non-negative; JSON-shaped props through the mapstructure model; all criterion values symbolic
+//verif:bounds C19 HC19_anchoring: Anchoring.Apply with the majority listener: A=2 (quick) / A<=3 with K=1 (thorough) known alternatives (last optionally not considered), K<=2 criteria (gain/cost), 1..2 anchoring alternatives (considered or not; quick tier: two only with K=1) with symbolic positive coefficients, ideal / nadir reference point, linear gain and loss functions with symbolic slope and intercept or the exponential function (e^x uninterpreted) or identically zero functions, inline applier (applyOnNotConsidered on/off) and new-criterion applier, bounding off / non-negative; JSON-shaped props through the mapstructure model; all criterion values symbolic
 //verif:outside C19: more than two anchoring alternatives and K>2 (products of symbolic coefficients: nonlinear arithmetic); the reference-criterion strategies other than the default inside the new-criterion applier (C18 checks the providers)
 //verif:assume C19: REAL arithmetic; ties between coefficient-weighted values may be broken either way (the statement does not say how): the oracle only requires the chosen value to be a best/worst one
 
@@ -73,8 +73,12 @@ func c19all(d *model.DecisionMakingParams) []model.AlternativeWithCriteria {
 
 //verif:harness HC19_anchoring mode=REAL reach=ideal,nadir,inline,newCriterion,gain-branch,loss-branch,zero-functions,two-anchors,cost,degenerate-range ob_timeout_ms=60000
 func HC19_anchoring() {
-	A := rt.IntRange("A", 2, rt.Pick(2, 3))
 	K := rt.IntRange("K", 1, 2)
+	maxA := 2
+	if rt.Thorough() && K == 1 {
+		maxA = 3 // thorough: a third alternative with one criterion (A=3, K=2 with nine function pairs did not finish in 45 min)
+	}
+	A := rt.IntRange("A", 2, maxA)
 	crit := vh.Criteria(K, "")
 	if crit[0].Type == model.Cost {
 		rt.Reach("cost")
